@@ -37,6 +37,11 @@ CHECKS = {
             "every generated document is tried with the rest of the document lying behind the cut, plus trailing-garbage and "
             "closer-swap/removal families.",
             "documents come from a generator of the RFC 8259 grammar; sampling of an infinite set", "3/C07"),
+    "C06": ("runtime differential monitor against python3 json over generated RFC 8259 documents, three encodings, fresh and reused scratch stream",
+            "Each generated document is parsed by the real parser (ASan builds, exact-size buffers) in UTF-8/16/32 and its "
+            "canonical dump compared with the denotation computed by an independent conformant parser; the reused-stream "
+            "history variant exposes state leaking between parses.",
+            "python3 json is the reference; the grammar is sampled, not enumerated", "3/C06"),
 }
 
 PENDING = {}
